@@ -224,11 +224,14 @@ type CmdResult struct {
 	After   string // file contents afterwards
 	Stdout  string
 	Outcome string // "ok <hex>" | "fail" | "panic" | "fail-but-changed <hex>"
+	Written bool   // the file's mtime changed
 }
 
 // runCommand executes a mutating command through the real CLI on a real file.
 func runCommand(env *Env, text string, cfg CfgSpec, now []int, c CmdSpec, cpus int) CmdResult {
 	file := writeFile(env, "target.klg", text)
+	past := gotime.Now().Add(-2 * gotime.Hour)
+	os.Chtimes(file, past, past)
 	t0 := mkTime(now[0], now[1], now[2], now[3], now[4])
 	opts := CLIOpts{Config: cfg.Ini(), Now: t0, Cpus: cpus}
 	if c.Kind == "pause" {
@@ -249,6 +252,9 @@ func runCommand(env *Env, text string, cfg CfgSpec, now []int, c CmdSpec, cpus i
 	res := runCLI(env, opts, c.CLIArgs(file)...)
 	after, _ := os.ReadFile(file)
 	r := CmdResult{Code: res.Code, Err: res.Err, Panic: res.Panic, After: string(after), Stdout: res.Stdout}
+	if st, err := os.Stat(file); err == nil && st.ModTime().After(past.Add(gotime.Hour)) {
+		r.Written = true
+	}
 	switch {
 	case res.Panic != "":
 		r.Outcome = "panic"
